@@ -120,3 +120,49 @@ def _g_dec_int(tier, rnd):
             continue
         for depth in (1, 2, 3, 5):
             yield {"self": None, "args": {"func": {"__func__": {"kind": "int_simple"}}, "key": _k(k), "depth": depth}}
+
+
+# ---- Bloom family ----------------------------------------------------------------------------------
+def _geom(cls, m, k, cells, added=0, extra=None):
+    """recipe of a filter with a chosen geometry: built from parameters, then slots overridden"""
+    counting = cls.endswith("CountingBloomFilter")
+    rec = {"__recipe__": cls, "args": {"est_elements": 10, "false_positive_rate": 0.05},
+           "set": {"_num_bits": m, "_number_hashes": k, "_bloom_length": m if counting else -(-m // 8),
+                   "_bloom": cells, "_els_added": added}}
+    if extra:
+        rec["set"].update(extra)
+    return rec
+
+
+def hash_lists(m, k, rnd, n=6):
+    """hash lists of length k whose positions cover coincidences, the last bit, wrap-around"""
+    out = [[0] * k, [m - 1] * k, list(range(k)), [m - 1 + i * m for i in range(k)], [m, 2 * m - 1] * ((k + 1) // 2)]
+    for _ in range(n):
+        out.append([rnd.randrange(0, 4 * m) for _ in range(k)])
+    return [h[:k] for h in out if len(h) >= k]
+
+
+def cbloom_states(tier, rnd):
+    MAX = 2**32 - 1
+    for m in ([1, 2, 3, 5] if tier == "quick" else [1, 2, 3, 4, 5, 8, 9]):
+        for k in (1, 2, 3):
+            base = [[0] * m, [1] * m, [MAX] * m, [MAX - 1] * m, [rnd.choice([0, 1, 2, 5, MAX - 2, MAX - 1, MAX]) for _ in range(m)],
+                    [rnd.randrange(0, 50) for _ in range(m)]]
+            for cells in base:
+                for added in (0, 7, 2**64 - 2, 2**64 - 1):
+                    yield m, k, _geom("probables.blooms.countingbloom.CountingBloomFilter", m, k, cells, added)
+
+
+@gen("CountingBloomFilter.add_alt")
+def _g_cb_add(tier, rnd):
+    for m, k, rec in cbloom_states(tier, rnd):
+        for h in hash_lists(m, k, rnd, 3):
+            for n in (1, 2, 5, 2**31 + 5, 2**32 - 1, 2**32, 2**64, 2**65):
+                yield {"self": rec, "args": {"hashes": h, "num_els": n}}
+
+
+@gen("CountingBloomFilter.check_alt")
+def _g_cb_check(tier, rnd):
+    for m, k, rec in cbloom_states(tier, rnd):
+        for h in hash_lists(m, k, rnd, 3):
+            yield {"self": rec, "args": {"hashes": h}}
